@@ -142,3 +142,56 @@ def request(world, p, dump, op, codes=None):
         r['out'] = []
     r['after'] = cfg_of(world, p)
     return r, texts
+
+
+def cli_lines(world, dump, command, cfg, workdir, count=None, show_tid=False, color=None):
+    """run the command-line interface (pykdebugparser.__main__) on the dump; returns (exit_code, output lines)"""
+    import os
+    from click.testing import CliRunner
+    from pykdebugparser.__main__ import cli
+    os.makedirs(workdir, exist_ok=True)
+    path = os.path.join(workdir, 'cli_%d.bin' % os.getpid())
+    with open(path, 'wb') as f:
+        f.write(dump.blob)
+    args = [command, path]
+    if count is not None:
+        args += ['-c', str(count)]
+    if cfg['ftid']:
+        args += ['--tid', str(world.ctid(cfg['ftid']))]
+    if command in ('traces', 'callstacks', 'logs') and cfg['fproc']['kind'] != 'none':
+        fp = cfg['fproc']
+        args += ['--process', str(fp['pid']) if fp['kind'] == 'pid' else fp['name']]
+    if show_tid:
+        args += ['--show-tid']
+    if command in ('kevents', 'traces'):
+        for c in cfg['fclass']:
+            args += ['-cf', str(c)]
+        for c in cfg['fsub']:
+            args += ['-sf', hex(c)]
+    if command == 'traces' and color is not None:
+        args += ['--color' if color else '--no-color']
+    res = CliRunner().invoke(cli, args)
+    os.unlink(path)
+    return res.exit_code, res.output.splitlines(), args[2:]
+
+
+def api_lines(world, dump, command, cfg, count=None, show_tid=False, color=True):
+    """what the library prints for the same settings (formatted_* listing, first `count` items)"""
+    from pykdebugparser.pykdebugparser import PyKdebugParser
+    p = PyKdebugParser()
+    c2 = dict(cfg)
+    if command in ('callstacks', 'logs'):
+        c2 = dict(cfg, fclass=[], fsub=[])
+    if command == 'kevents':
+        c2 = dict(c2, fproc={'kind': 'none'})
+    apply_cfg(world, p, c2)
+    p.show_tid = show_tid
+    p.color = color
+    gen_ = {'kevents': p.formatted_kevents, 'traces': p.formatted_traces, 'callstacks': p.formatted_callstacks,
+            'logs': p.formatted_logs}[command](io.BytesIO(dump.blob))
+    out = []
+    for i, x in enumerate(gen_):
+        if count is not None and count >= 0 and i == count:
+            break
+        out += str(x).splitlines()
+    return out
